@@ -52,12 +52,14 @@ structure Sub where
     everything else is ignored by clusterInvoke -/
 inductive Fwd where
   | goon | finish | replace (k : Nat)
+  | panic   -- the filter panics (conn.serve recovers: clusterInvoke is left, FinishReq never runs)
   deriving DecidableEq, Inhabited
 
 /-- result of one RoundTrip (http and fcgi error types fall in the same `case` arms);
     `writeT` = WriteRequestError whose CheckTargetError is true (caused by the client side: no OnFail) -/
 inductive Rt where
   | ok (status : Nat) | connect | write | writeT | rhdr | timeout | broken | other
+  | panic   -- RoundTrip panics (after IncConnNum; conn.serve recovers, FinishReq never runs)
   deriving DecidableEq, Inhabited
 
 structure Attempt where
@@ -122,6 +124,7 @@ structure BalSt where
   cur : List (List Int)      -- BackendRR.current per sub-cluster / backend
   up : List (List Bool)      -- BfeBackend.avail
   fails : List (List Nat)    -- BfeBackend.failNum
+  gone : List (List Bool) := []  -- removed from the sub-cluster's list by a backend-table reload
 
 /-- how a backend is chosen inside sub-cluster `si` (given the connNums), and what a RoundTrip result does
     to the balancer state.  The theorems hold for every policy. -/
@@ -159,8 +162,8 @@ def setAt {α : Type} (l : List α) (i : Nat) (v : α) : List α :=
   | x :: xs, i + 1 => x :: setAt xs i v
 
 /-- `backend.Avail() && backendRR.weight > 0` per backend of sub-cluster `si` -/
-def eligible (sub : Sub) (ups : List Bool) : List Bool :=
-  sub.backs.zipIdx.map fun (b, j) => ups.getD j false && decide (b.weight * 100 > 0)
+def eligible (sub : Sub) (ups gone : List Bool) : List Bool :=
+  sub.backs.zipIdx.map fun (b, j) => ups.getD j false && !gone.getD j false && decide (b.weight * 100 > 0)
 
 /-- compLCWeight(best, j) as the integer `ret` -/
 def compLC (sub : Sub) (conn : Nat → Int) (si best j : Nat) : Int :=
@@ -201,9 +204,10 @@ def eligWeight (backs : List Back) (elig : List Bool) : Int :=
 /-- SubCluster.balance with the algorithm Balance selects (WrrSmooth / WlcSmooth / WrrSticky) -/
 def realSel (cfg : Cfg) (bs : BalSt) (conn : Nat → Int) (si : Nat) : Option Nat × BalSt :=
   let sub := cfg.subs.getD si default
-  if sub.backs.length == 0 then (none, bs)
+  let gone := bs.gone.getD si []
+  if sub.backs.length == (gone.filter id).length then (none, bs)     -- sub.backends.Len() == 0
   else
-    let elig := eligible sub (bs.up.getD si [])
+    let elig := eligible sub (bs.up.getD si []) gone
     if cfg.mode == 2 then
       let total := eligWeight sub.backs elig
       if total ≤ 0 then (none, bs)
@@ -240,7 +244,8 @@ def realPolicy : Policy := ⟨realSel, realNote⟩
 def initBal (subs : List Sub) : BalSt :=
   ⟨subs.map fun s => s.backs.map fun b => b.weight * 100,
    subs.map fun s => s.backs.map fun b => b.up,
-   subs.map fun s => s.backs.map fun _ => 0⟩
+   subs.map fun s => s.backs.map fun _ => 0,
+   subs.map fun s => s.backs.map fun _ => false⟩
 
 /-! ### sub-cluster selection -/
 
@@ -333,6 +338,7 @@ def allowRetry (cfg : Cfg) (rq : ReqSpec) : Rt → Bool
   | .ok _ => false
   | .connect => true
   | .other => false
+  | .panic => false
   | _ => cfg.rl == 1 && rq.isGET && rq.noBody
 
 def ecOf (old : Ec) : Rt → Ec
@@ -344,6 +350,7 @@ def ecOf (old : Ec) : Rt → Ec
   | .timeout => .timeout
   | .broken => .broken
   | .other => old
+  | .panic => old
 
 def errOf : Rt → Err
   | .ok _ => .nil
@@ -354,6 +361,13 @@ def errOf : Rt → Err
   | .timeout => .timeout
   | .broken => .broken
   | .other => .other
+  | .panic => .nil
+
+/-- verdicts after which clusterInvoke is left before the backend is counted: Finish (return) and a panicking
+    filter.  `LR.act` = 9 marks "left by a panic". -/
+def endsRequest : Fwd → Bool
+  | .finish | .panic => true
+  | _ => false
 
 /-- the backend the request is sent to: the one Balance chose unless the callback replaced it -/
 def target (cfg : Cfg) (f : Fwd) (b : Nat) : Nat :=
@@ -390,8 +404,8 @@ def loop (pol : Policy) (cfg : Cfg) (rq : ReqSpec) : Nat → LS → Err → LR
     | (.ok b0 sub x, s1) =>
       let conn1 := decTb s1.conn s1.tb
       let a := s1.script.headD Attempt.dflt
-      if a.fwd = .finish then
-        ⟨none, .nil, 1, { s1 with conn := conn1, tb := none, script := s1.script.tail, picks := b0 :: s1.picks }, [.fin b0 sub]⟩
+      if endsRequest a.fwd then
+        ⟨none, .nil, (if a.fwd = .panic then 9 else 1), { s1 with conn := conn1, tb := none, script := s1.script.tail, picks := b0 :: s1.picks }, [.fin b0 sub]⟩
       else
         let b := target cfg a.fwd b0
         let conn2 := upd conn1 b 1
@@ -404,7 +418,7 @@ def loop (pol : Policy) (cfg : Cfg) (rq : ReqSpec) : Nat → LS → Err → LR
           if allowRetry cfg rq o then
             let r := loop pol cfg rq n { s2 with retry := s2.retry + 1 } (errOf o)
             { r with evs := e :: r.evs }
-          else ⟨none, errOf o, 0, s2, [e]⟩
+          else ⟨none, errOf o, (if o = .panic then 9 else 0), s2, [e]⟩
 
 /-! ### several requests sharing one balancer: schedules of invoke / finish steps -/
 
@@ -412,6 +426,7 @@ structure RqSt where
   tb : Option Nat := none
   invoked : Bool := false
   done : Bool := false
+  dead : Bool := false   -- its clusterInvoke was left by a panic: FinishReq will never run for it
   deriving Inhabited
 
 inductive Step where
@@ -420,11 +435,16 @@ inductive Step where
       avail := true, failNum := 0), `down` = UpdateStatus took it out (SetAvail(false)).  They may come at any
       point of a schedule, also while requests are in flight on `b`; they must not touch connNum. -/
   | up (b : Nat) | down (b : Nat)
+  /-- the backend table is reloaded without backend `b` (BalanceRR.Update drops it from the list; requests in
+      flight keep the old object and its counter) -/
+  | remove (b : Nat)
 
 inductive StepOut where
   | inv (k : Nat) (r : LR)
   | fin (k : Nat) (act ran : Nat) (panicked : Bool) (conn : Nat → Int)
-  | flip (isUp : Bool) (b : Nat) (conn : Nat → Int)
+  | flip (isUp : Bool) (b : Nat) (conn : Nat → Int) (bs : BalSt)
+  | removed (b : Nat) (conn : Nat → Int) (bs : BalSt)
+  | deadFin (k : Nat) (conn : Nat → Int)
   | bad
 
 structure G where
@@ -470,13 +490,16 @@ def step (pol : Policy) (cfg : Cfg) (reqs : List ReqSpec) (g : G) (st : Step) (c
       else
         let lr := invoke pol cfg rq g ch
         { bs := lr.st.bs, conn := lr.st.conn,
-          rqs := setRq g.rqs k { tb := lr.st.tb, invoked := true, done := false },
+          rqs := setRq g.rqs k { tb := lr.st.tb, invoked := true, done := false, dead := lr.act == 9 },
           outs := .inv k lr :: g.outs }
     | _, _ => { g with outs := .bad :: g.outs }
   | .fin k =>
     match g.rqs[k]? with
     | some r =>
       if !r.invoked || r.done then { g with outs := .bad :: g.outs }
+      else if r.dead then
+        -- nothing runs; a request that panicked inside RoundTrip keeps its count for ever (known finding)
+        { g with outs := .deadFin k g.conn :: g.outs }
       else
         let fc := finChain ((reqs.getD k ⟨false, false, [], [], none⟩).finish) finFilters 0
         -- deferred in FinishReq: runs on every way out of the callback block (early return on Finish, panic)
@@ -484,8 +507,11 @@ def step (pol : Policy) (cfg : Cfg) (reqs : List ReqSpec) (g : G) (st : Step) (c
         { g with conn := conn', rqs := setRq g.rqs k { tb := none, invoked := true, done := true },
                  outs := .fin k fc.1 fc.2.1 fc.2.2 conn' :: g.outs }
     | none => { g with outs := .bad :: g.outs }
-  | .up b => { g with bs := setAvail g.bs b true, outs := .flip true b g.conn :: g.outs }
-  | .down b => { g with bs := setAvail g.bs b false, outs := .flip false b g.conn :: g.outs }
+  | .up b => { g with bs := setAvail g.bs b true, outs := .flip true b g.conn (setAvail g.bs b true) :: g.outs }
+  | .down b => { g with bs := setAvail g.bs b false, outs := .flip false b g.conn (setAvail g.bs b false) :: g.outs }
+  | .remove b =>
+    let bs' := { g.bs with gone := setAt g.bs.gone (b / 8) (setAt (g.bs.gone.getD (b / 8) []) (b % 8) true) }
+    { g with bs := bs', outs := .removed b g.conn bs' :: g.outs }
 
 def runSched (pol : Policy) (cfg : Cfg) (reqs : List ReqSpec) : G → List Step → List (List Nat) → G
   | g, [], _ => g
